@@ -29,6 +29,7 @@ EXTERNAL_DISCR = {
     "core::option::Option": {"None": 0, "Some": 1},
     "core::result::Result": {"Ok": 0, "Err": 1},
     "core::cmp::Ordering": {"Less": -1, "Equal": 0, "Greater": 1},
+    "core::ops::control_flow::ControlFlow": {"Continue": 0, "Break": 1},
 }
 
 INT_BITS = {"u8": 8, "u16": 16, "u32": 32, "u64": 64, "u128": 128, "usize": 64,
@@ -657,7 +658,28 @@ def m_index(it, args, callee, depth):
     return UNKNOWN
 
 
+CF = "core::ops::control_flow::ControlFlow"
+
+
+def m_try_branch(it, args, callee, depth):
+    v = deref_all(it, args[0])
+    if not (isinstance(v, tuple) and v[0] == "adt"):
+        raise Undecided("Try::branch on undecided value")
+    if v[2] in ("Ok", "Some"):
+        return ("adt", CF, "Continue", [v[3][0]])
+    return ("adt", CF, "Break", [v])
+
+
+def m_from_residual(it, args, callee, depth):
+    v = deref_all(it, args[0])
+    if isinstance(v, tuple) and v[0] == "adt":
+        return v
+    return UNKNOWN
+
+
 STD_MODELS = [
+    ("core::ops::try_trait::Try::branch", m_try_branch),
+    ("core::ops::try_trait::FromResidual::from_residual", m_from_residual),
     ("core::ops::index::Index::index", m_index),
     ("core::ops::index::IndexMut::index_mut", m_index),
     ("PartialOrd::partial_cmp", m_partial_cmp),
